@@ -121,3 +121,13 @@ def install(I):
     I.models[id(inspect.Signature.bind)] = _native(inspect.Signature.bind)
     I.models[id(inspect.Signature.bind_partial)] = _native(inspect.Signature.bind_partial)
     I.models[id(functools.wraps)] = lambda I, f, *a, **kw: WrapsApply(f)
+
+    import builtins
+
+    def _issubclass(I, a, b):  # as the stdlib model, but python's TypeError (arg 1 not a class) is the program's exception
+        try:
+            return issubclass(a, b)
+        except TypeError as e:
+            raise PyExc(I.make_exc(TypeError, *e.args))
+
+    I.models[id(builtins.issubclass)] = _issubclass
